@@ -43,6 +43,8 @@ ELEMENTS = [
     # Exactly[type] (EXACTV variant only): of the classes passed there (A, B - whose class is the metaclass M1 - and C) it admits C.
     # (list, dict, ... are admitted too in reality, but not their parametrisations: they are not passed in that variant)
     {"k": "metaof", "m": "EXACT", "cs": [4]},
+    # unions written inside type[...] (annotations only, never passed): type[A | C], type[B | C]
+    {"k": "un", "args": [cls(2), cls(4)]}, {"k": "un", "args": [cls(3), cls(4)]},
     {"k": "any"},
 ]
 
@@ -53,6 +55,10 @@ def py_subelem(anc, x, y):
         return py_subelem(anc, x, cls(1))
     if x["k"] == "any":
         return py_subelem(anc, cls(1), y)
+    if x["k"] == "un":
+        return all(py_subelem(anc, m, y) for m in x["args"])
+    if y["k"] == "un":
+        return any(py_subelem(anc, x, m) for m in y["args"])
     if x["k"] == "metaof":
         return (y["k"] == "cls" and y["c"] == 1 and "via" not in x) or x == y or (y["k"] == "metaof" and y["m"] == x["m"] and "via" in y and "via" not in x)
     if y["k"] == "metaof":
@@ -132,7 +138,7 @@ def gen_jobs(tier, seed):
         w["methods"] = methods
         calls = []
         for a in tynodes:
-            if w["elements"][a - 1]["k"] == "metaof":
+            if w["elements"][a - 1]["k"] in ("metaof", "un"):
                 continue
             if with_inst:
                 for b in inst + [1]:
@@ -151,11 +157,25 @@ def gen_jobs(tier, seed):
             for m in methods:
                 if rng.random() < 0.7:
                     m["kwn"], m["kwt"], m["kwreq"] = ["k"], [worlds.cls(rng.choice(tynodes))], [rng.random() < 0.3]
+
+            # the excluded pair (a bare class next to a generic over a strict superclass of it) must not come back through
+            # the keyword types either (found by the thorough tier: false alarm of the generator, DESIGN 12.22)
+            def kwclash(ms):
+                tt = [els_[t["c"] - 1] for m in ms for t in m["kwt"] if t["c"] != 1]
+                return any(x["k"] == "cls" and y["k"] == "gen" and x["c"] != y["o"] and y["o"] in anc_.get(x["c"], ())
+                           for x in tt for y in tt if x.get("k") in ("cls",) and "c" in x)
+            for _ in range(20):
+                if not kwclash(methods):
+                    break
+                for m in methods:
+                    for t in m["kwt"]:
+                        if t["c"] != 1 and els_[t["c"] - 1].get("k") == "gen" and els_[t["c"] - 1]["o"] == SEQ:
+                            t["c"] = rng.choice(tynodes)
             base_calls = list(calls)
             calls = []
             for c in base_calls[:10]:
                 calls.append(c)
-                for e in rng.sample([n_ for n_ in tynodes if w["elements"][n_ - 1]["k"] != "metaof"], 3):
+                for e in rng.sample([n_ for n_ in tynodes if w["elements"][n_ - 1]["k"] not in ("metaof", "un")], 3):
                     c2 = json.loads(json.dumps(c))
                     c2["kwn"], c2["kwa"] = ["k"], [{"c": e}]
                     calls.append(c2)
@@ -171,7 +191,7 @@ def gen_jobs(tier, seed):
                 m["posonly"] = len(m["pos"])
         if q % 11 == 5 and not with_inst:
             # a single method whose annotation is a union of type[...] arms: applicable to a passed type iff some arm admits it
-            a1, a2 = rng.sample([n_ for n_ in tynodes if w["elements"][n_ - 1]["k"] != "metaof"], 2)
+            a1, a2 = rng.sample([n_ for n_ in tynodes if w["elements"][n_ - 1]["k"] not in ("metaof", "un")], 2)
             methods = [worlds.mkmethod("m1", 1, [1])]
             methods[0]["pos"] = [{"k": "union", "args": [worlds.cls(a1), worlds.cls(a2)]}]
             if q % 2 == 1:
@@ -182,7 +202,7 @@ def gen_jobs(tier, seed):
         if q % 11 == 6 and not with_inst:
             # a single method whose annotation is Dependent[type[X], <always true>] (plus, sometimes, an ordinary int method):
             # applicable to a passed type iff type[X] admits it
-            a1 = rng.choice([n_ for n_ in tynodes if w["elements"][n_ - 1]["k"] != "metaof"])
+            a1 = rng.choice([n_ for n_ in tynodes if w["elements"][n_ - 1]["k"] not in ("metaof", "un")])
             methods = [worlds.mkmethod("m1", 1, [a1])]
             methods[0]["bare"] = rng.random() < 0.5
             methods[0]["depwrap"] = True
